@@ -64,8 +64,8 @@ S7 == [type |-> "object", required |-> <<"ro", "wo">>, pk |-> <<"n", "ro", "wo">
        ps |-> <<TInt, [type |-> "string", readOnly |-> TRUE], [type |-> "string", writeOnly |-> TRUE]>>]
 
 (* S8: an object-valued property (a multipart part that is itself a JSON document; a nested mapping of a YAML body) *)
-S8 == [type |-> "object", pk |-> <<"n", "o", "s">>,
-       ps |-> <<TInt, [type |-> "object", required |-> <<"a">>, pk |-> <<"a">>, ps |-> <<TInt>>], TStr>>]
+S8 == [type |-> "object", required |-> <<>>, pk |-> <<"n", "o", "s">>,
+       ps |-> <<TInt, [type |-> "object", required |-> <<"a">>, pk |-> <<"a", "b">>, ps |-> <<TInt, TInt>>], TStr>>]
 
 (* Schemas of a text/plain body (and of a multipart part decoded as plain text).  The value a plain-text body encodes is *)
 (* the string it carries, whatever the schema says -- in particular when the schema has NO "type" keyword (T1..T5): a   *)
@@ -98,7 +98,7 @@ Wrap(s, w) ==
      [] w = "propAnyOf"  -> [type |-> "object", pk |-> <<"in">>, ps |-> <<[anyOf |-> <<s, [type |-> "boolean"]>>]>>]
      [] OTHER -> s
 
-BaseSchemaOf(c) == IF c.family \in {"text", "octet"} THEN TextSchemaOf(c.schema) ELSE IF c.schema = "SN" THEN SN
+BaseSchemaOf(c) == IF c.family \in {"text", "octet", "zip"} THEN TextSchemaOf(c.schema) ELSE IF c.schema = "SN" THEN SN
                ELSE CASE c.schema = "S1" -> S1 [] c.schema = "S3" -> S3 [] c.schema = "S4" -> S4 [] c.schema = "S4a" -> S4a
                       [] c.schema = "S5" -> S5 [] c.schema = "S6" -> S6 [] c.schema = "S7" -> S7 [] c.schema = "S8" -> S8 [] OTHER -> S2
 SchemaOf(c) == IF "wrap" \in DOMAIN c THEN Wrap(BaseSchemaOf(c), c.wrap) ELSE BaseSchemaOf(c)
